@@ -13,6 +13,8 @@ EXPLANATION = (
     "extracted from decode, both equal RFC 9204 4.3/4.4, and the two first-byte classifiers equal the RFC's over all "
     "256 values. Agreement of encoder and decoder over histories, blocking semantics and index arithmetic are "
     "value-level and NOT decided.")
+# every anchor of these rules lives in the h3 crate: thorough tier repeats them on the feature-less build
+EXTRA_CONFIGS = ["h3-plain"]
 RULES = "C20-a capacity guard (A2/A3); C20-b eviction guarded by references (A3/A4/A10); C20-c instruction codecs (A11 + decision lists)"
 
 HERE = os.path.dirname(os.path.dirname(os.path.abspath(__file__)))
